@@ -474,6 +474,9 @@ func report(p *Prog, run *propRun, opts checkOpts, diags []string, wall time.Dur
 			if isPanic {
 				continue // the expression no longer exists
 			}
+			if st := pathStem(n); st != n && cur[st] != nil {
+				continue // one of several paths (back edges, return sites) a clause was proved on is gone; the clause itself is still generated
+			}
 			claimed++
 			violate(nil, n, "obligation proved on the pinned tree can no longer be generated (function or contract clause gone / stale)")
 			continue
@@ -536,6 +539,13 @@ func report(p *Prog, run *propRun, opts checkOpts, diags []string, wall time.Dur
 			claimed++
 			violate(o, n, "new obligation fails: solver found a counterexample")
 		default:
+			// a clause of the function's own contract that was proved on the pinned tree on every path it then had,
+			// and is now generated for an additional path (a new back edge, e.g. a continue) on which it is not proved
+			if st := pathStem(n); st != n && base[st] == "discharged" && (strings.Contains(n, "#loop") || strings.Contains(n, "#iter") || strings.Contains(n, "#ensures") || strings.Contains(n, "#frame")) {
+				claimed++
+				violate(o, n, "clause proved on the pinned tree is not proved on a new path through the function ("+o.Status+")")
+				continue
+			}
 			undecided = append(undecided, n)
 		}
 	}
@@ -764,4 +774,22 @@ func cmdBaseline(args []string) {
 	os.MkdirAll(filepath.Join(verifDir, "baseline"), 0o755)
 	b, _ := json.MarshalIndent(base, "", " ")
 	os.WriteFile(filepath.Join(verifDir, "baseline", "obligations.json"), b, 0o644)
+}
+
+// pathStem strips the "~K" suffix that distinguishes the instances of one clause on several paths (back edges of a
+// loop, call sites of the same callee) from an obligation name.
+func pathStem(n string) string {
+	i := strings.LastIndex(n, "~")
+	if i < 0 {
+		return n
+	}
+	for _, c := range n[i+1:] {
+		if c < '0' || c > '9' {
+			return n
+		}
+	}
+	if i+1 == len(n) {
+		return n
+	}
+	return n[:i]
 }
